@@ -420,7 +420,13 @@ func geoPaths() (city, isp string) {
 // newRealFile builds and refreshes a geoip.File configured like the
 // repository's own tests.
 func newRealFile(ipCache int) (*geoip.File, error) {
-	city, isp := geoPaths()
+	city, _ := geoPaths()
+	return newRealFileAt(city, ipCache)
+}
+
+// newRealFileAt is newRealFile with the country database at another path.
+func newRealFileAt(city string, ipCache int) (*geoip.File, error) {
+	_, isp := geoPaths()
 	top := map[geoip.Country]geoip.ASN{geoip.CountryAU: 1221, geoip.CountryJP: 2516, geoip.CountryUS: 7922}
 	f := geoip.NewFile(&geoip.FileConfig{
 		Logger: stack.Logger(), CacheManager: agdcache.EmptyManager{}, ASNPath: isp, CountryPath: city,
@@ -2117,6 +2123,7 @@ func TestCheck(t *testing.T) {
 		r.Extra("real_geoip_zones", map[string]any{"ipv4": len(d.zones4), "ipv6": len(d.zones6), "no_country": len(d.unknown),
 			"ipv4_countries": len(countriesOf(d.zones4)), "ipv6_countries": len(countriesOf(d.zones6))})
 	}
+	refreshRace(r)
 	r.Extra("histories", map[string]int{"sequential": nSeq, "concurrent": nConc, "real_geoip_sequential": nReal, "real_geoip_concurrent": nRealConc})
 	r.Exhaustive(false)
 
@@ -2140,4 +2147,7 @@ func TestCheck(t *testing.T) {
 	r.Require("realgeo_mapped_option_after_mapped_option_of_other_country", 200)
 	r.Require("realgeo_distinct_countries_in_mapped_options", 3)
 	r.Require("realgeo_distinct_countries", 10)
+	r.Require("refresh_race_refreshes", 100)
+	r.Require("refresh_race_reader_calls_during_refresh", 2000)
+	r.Require("refresh_race_probes_location_changed_by_refresh", 1000)
 }
